@@ -23,233 +23,7 @@
 // R=vN@C / R=eN@C / R=d@C.  After the scripted events the harness drains: run the lowest non-empty
 // context; else complete the lowest pending leaf with done on context 9; else, if the root has not
 // completed and stop was not requested, request stop on context 0.
-#include <unifex/any_scheduler.hpp>
-#include <unifex/any_sender_of.hpp>
-#include <unifex/dematerialize.hpp>
-#include <unifex/done_as_optional.hpp>
-#include <unifex/finally.hpp>
-#include <unifex/inline_scheduler.hpp>
-#include <unifex/inplace_stop_token.hpp>
-#include <unifex/just.hpp>
-#include <unifex/just_done.hpp>
-#include <unifex/just_error.hpp>
-#include <unifex/let_value.hpp>
-#include <unifex/materialize.hpp>
-#include <unifex/never.hpp>
-#include <unifex/on.hpp>
-#include <unifex/scheduler_concepts.hpp>
-#include <unifex/sequence.hpp>
-#include <unifex/stop_when.hpp>
-#include <unifex/then.hpp>
-#include <unifex/typed_via.hpp>
-#include <unifex/unstoppable.hpp>
-#include <unifex/via.hpp>
-#include <unifex/when_all.hpp>
-#include <unifex/with_query_value.hpp>
-#include <unifex/with_scheduler_affinity.hpp>
-
-#include <algorithm>
-#include <cstdio>
-#include <cstdlib>
-#include <cstring>
-#include <iostream>
-#include <map>
-#include <memory>
-#include <optional>
-#include <sstream>
-#include <string>
-#include <vector>
-
-using namespace unifex;
-
-// ---------------------------------------------------------------- allocation accounting (leak monitor)
-static long g_live = 0;
-void* operator new(std::size_t n) { ++g_live; void* p = std::malloc(n ? n : 1); if (!p) throw std::bad_alloc(); return p; }
-void operator delete(void* p) noexcept { if (p) { --g_live; std::free(p); } }
-void operator delete(void* p, std::size_t) noexcept { if (p) { --g_live; std::free(p); } }
-
-using Queries = with_receiver_queries<overload<any_scheduler_ref(const this_&) noexcept>(get_scheduler)>;
-using Any = Queries::any_sender_of<int>;
-using AnyVoid = Queries::any_sender_of<>;
-
-struct Err { int code; };
-static std::exception_ptr mkerr(int c) { return std::make_exception_ptr(Err{c}); }
-static int errcode(std::exception_ptr e) {
-  try { std::rethrow_exception(e); } catch (const Err& x) { return x.code; } catch (...) { return -1; }
-}
-
-// ---------------------------------------------------------------- world
-static int g_ctx = -1;   // the context the (single) thread currently is
-static int g_tag = -1;   // tag for the next manual schedule operation started (set by (scur J))
-
-struct LeafOpBase { virtual void complete(char chan, int val) = 0; virtual ~LeafOpBase() = default; };
-struct QItem { virtual void run() noexcept = 0; virtual ~QItem() = default; };
-struct Spec { bool inline_ = true; char chan = 'v'; int val = 0; bool completeOnStop = false; };
-
-struct World {
-  std::map<int, Spec> specs;
-  std::map<int, LeafOpBase*> running;
-  std::map<int, std::vector<std::pair<int, QItem*>>> queues;   // context -> (tag, item)
-  std::vector<std::string> out;
-  int rootCompletions = 0;
-  bool started = false, stopped = false;
-  void emit(std::string s) { out.push_back(s + "@" + std::to_string(g_ctx)); }
-  void emit_raw(std::string s) { out.push_back(std::move(s)); }
-};
-
-// ---------------------------------------------------------------- manual tagged scheduler
-struct ManualScheduler {
-  World* w; int k; int tag;
-
-  struct schedule_sender {
-    template <template <typename...> class Variant, template <typename...> class Tuple>
-    using value_types = Variant<Tuple<>>;
-    template <template <typename...> class Variant>
-    using error_types = Variant<std::exception_ptr>;
-    static constexpr bool sends_done = true;
-    static constexpr blocking_kind blocking = blocking_kind::never;
-    static constexpr bool is_always_scheduler_affine = false;
-
-    World* w; int k; int tag;
-
-    template <typename R>
-    struct Op final : QItem {
-      World* w; int k; int tag; R r;
-      Op(World* w, int k, int tag, R&& r) : w(w), k(k), tag(tag), r(std::move(r)) {}
-      void start() noexcept {
-        int t = g_tag >= 0 ? g_tag : tag;
-        g_tag = -1;
-        tag = t;
-        w->queues[k].push_back({t, this});
-        w->emit("q" + std::to_string(k) + ":" + std::to_string(t));
-      }
-      void run() noexcept override {
-        if (get_stop_token(r).stop_requested()) unifex::set_done(std::move(r));
-        else unifex::set_value(std::move(r));
-      }
-    };
-    template <typename R>
-    friend Op<remove_cvref_t<R>> tag_invoke(tag_t<connect>, schedule_sender s, R&& r) {
-      return Op<remove_cvref_t<R>>{s.w, s.k, s.tag, (R&&)r};
-    }
-  };
-
-  schedule_sender schedule() const noexcept { return schedule_sender{w, k, tag}; }
-  friend bool operator==(const ManualScheduler& a, const ManualScheduler& b) noexcept { return a.w == b.w && a.k == b.k; }
-  friend bool operator!=(const ManualScheduler& a, const ManualScheduler& b) noexcept { return !(a == b); }
-};
-
-// sets the tag of the schedule operation that `inner` starts (used for schedule() on get_scheduler)
-template <typename Inner>
-struct TagSender {
-  template <template <typename...> class Variant, template <typename...> class Tuple>
-  using value_types = sender_value_types_t<Inner, Variant, Tuple>;
-  template <template <typename...> class Variant>
-  using error_types = sender_error_types_t<Inner, Variant>;
-  static constexpr bool sends_done = sender_traits<Inner>::sends_done;
-  static constexpr blocking_kind blocking = sender_traits<Inner>::blocking;
-  static constexpr bool is_always_scheduler_affine = sender_traits<Inner>::is_always_scheduler_affine;
-
-  int tag; Inner inner;
-
-  // clears the pending tag when the inner operation completes without consuming it (inline_scheduler)
-  template <typename R>
-  struct Rcv {
-    R r;
-    template <typename... V> void set_value(V&&... v) && noexcept { g_tag = -1; unifex::set_value(std::move(r), (V&&)v...); }
-    template <typename E> void set_error(E&& e) && noexcept { g_tag = -1; unifex::set_error(std::move(r), (E&&)e); }
-    void set_done() && noexcept { g_tag = -1; unifex::set_done(std::move(r)); }
-    template <typename CPO, typename Self>
-      requires is_receiver_query_cpo_v<CPO> && std::is_same_v<Self, Rcv> && std::is_invocable_v<CPO, const R&>
-    friend auto tag_invoke(CPO cpo, const Self& self) noexcept(std::is_nothrow_invocable_v<CPO, const R&>)
-        -> std::invoke_result_t<CPO, const R&> { return static_cast<CPO&&>(cpo)(self.r); }
-  };
-  template <typename R>
-  struct Op {
-    int tag; connect_result_t<Inner, Rcv<R>> op;
-    Op(int tag, Inner&& in, R&& r) : tag(tag), op(connect(std::move(in), Rcv<R>{std::move(r)})) {}
-    void start() noexcept { g_tag = tag; unifex::start(op); }
-  };
-  template <typename R>
-  friend Op<remove_cvref_t<R>> tag_invoke(tag_t<connect>, TagSender s, R&& r) {
-    return Op<remove_cvref_t<R>>{s.tag, std::move(s.inner), (R&&)r};
-  }
-};
-
-// ---------------------------------------------------------------- manual leaf sender
-struct LeafSender {
-  template <template <typename...> class Variant, template <typename...> class Tuple>
-  using value_types = Variant<Tuple<int>>;
-  template <template <typename...> class Variant>
-  using error_types = Variant<std::exception_ptr>;
-  static constexpr bool sends_done = true;
-
-  World* w; int id;
-
-  template <typename R>
-  struct Op final : LeafOpBase {
-    struct Cb { Op* op; void operator()() noexcept { op->on_stop(); } };
-    World* w; int id; R r;
-    std::optional<typename stop_token_type_t<R&>::template callback_type<Cb>> cb;
-    bool inCtor = false, completeAfterCtor = false;
-    Op(World* w, int id, R&& r) : w(w), id(id), r(std::move(r)) {}
-    void start() noexcept {
-      Spec sp = w->specs.count(id) ? w->specs[id] : Spec{};
-      auto st = get_stop_token(r);
-      w->emit("ls" + std::to_string(id) + ":" + (st.stop_requested() ? "1" : "0"));
-      if (sp.inline_) { deliver(sp.chan, sp.val); return; }
-      w->running[id] = this;
-      inCtor = true;
-      cb.emplace(st, Cb{this});
-      inCtor = false;
-      if (completeAfterCtor) complete('d', 0);
-    }
-    void on_stop() noexcept {
-      w->emit("lp" + std::to_string(id));
-      Spec sp = w->specs[id];
-      if (sp.completeOnStop) { if (inCtor) completeAfterCtor = true; else complete('d', 0); }
-    }
-    void complete(char chan, int val) override {
-      w->running.erase(id);
-      cb.reset();
-      deliver(chan, val);
-    }
-    void deliver(char chan, int val) noexcept {
-      if (chan == 'v') unifex::set_value(std::move(r), (int)val);
-      else if (chan == 'e') unifex::set_error(std::move(r), mkerr(val));
-      else unifex::set_done(std::move(r));
-    }
-  };
-  template <typename R>
-  friend Op<remove_cvref_t<R>> tag_invoke(tag_t<connect>, LeafSender s, R&& r) {
-    return Op<remove_cvref_t<R>>{s.w, s.id, (R&&)r};
-  }
-};
-
-// synchronous leaf: completes with value <id> inside start(); declares blocking = always
-struct SyncLeaf {
-  template <template <typename...> class Variant, template <typename...> class Tuple>
-  using value_types = Variant<Tuple<int>>;
-  template <template <typename...> class Variant>
-  using error_types = Variant<std::exception_ptr>;
-  static constexpr bool sends_done = false;
-  static constexpr blocking_kind blocking = blocking_kind::always;
-
-  World* w; int id;
-
-  template <typename R>
-  struct Op {
-    World* w; int id; R r;
-    void start() noexcept {
-      w->emit("ls" + std::to_string(id) + ":" + (get_stop_token(r).stop_requested() ? "1" : "0"));
-      unifex::set_value(std::move(r), (int)id);
-    }
-  };
-  template <typename R>
-  friend Op<remove_cvref_t<R>> tag_invoke(tag_t<connect>, SyncLeaf s, R&& r) {
-    return Op<remove_cvref_t<R>>{s.w, s.id, (R&&)r};
-  }
-};
+#include "ctx_common.hpp"
 
 // ---------------------------------------------------------------- parser
 struct Node { std::string k; std::vector<std::string> args; std::vector<Node> ch; };
@@ -348,58 +122,12 @@ static Any build(World* w, const Node& n) {
   throw std::runtime_error("unknown node " + k);
 }
 
-// ---------------------------------------------------------------- root receiver
-struct RootReceiver {
-  World* w; inplace_stop_source* src; const ManualScheduler* sched;
-  void record(const std::string& s) {
-    if (!w->started) w->emit_raw("!!completion-before-start");
-    if (++w->rootCompletions > 1) w->emit_raw("!!root-completed-twice");
-    w->emit(s);
-  }
-  void set_value(int v) noexcept { record("R=v" + std::to_string(v)); }
-  void set_error(std::exception_ptr e) noexcept { record("R=e" + std::to_string(errcode(e))); }
-  void set_done() noexcept { record("R=d"); }
-  friend inplace_stop_token tag_invoke(tag_t<get_stop_token>, const RootReceiver& r) noexcept { return r.src->get_token(); }
-  friend any_scheduler_ref tag_invoke(tag_t<get_scheduler>, const RootReceiver& r) noexcept {
-    return any_scheduler_ref{*r.sched};
-  }
-};
-
-static std::string flush(World& w) {
-  std::sort(w.out.begin(), w.out.end());
-  std::string s;
-  for (size_t i = 0; i < w.out.size(); ++i) { if (i) s += ","; s += w.out[i]; }
-  w.out.clear();
-  return s.empty() ? "-" : s;
-}
-
-static std::vector<std::string> split(const std::string& s, char d) {
-  std::vector<std::string> r; std::stringstream ss(s); std::string it;
-  while (std::getline(ss, it, d)) r.push_back(it);
-  return r;
-}
-static std::string trim(const std::string& s) {
-  size_t a = s.find_first_not_of(" \t\r\n"), b = s.find_last_not_of(" \t\r\n");
-  return a == std::string::npos ? "" : s.substr(a, b - a + 1);
-}
-
 static std::string run_case(const std::string& line) {
   auto parts = split(line, '|');
   if (parts.size() < 4) return "bad-op";
   std::string id = trim(parts[0]);
   World w;
-  {
-    std::stringstream ss(parts[2]); std::string tok;
-    while (ss >> tok) {
-      auto eq = tok.find('=');
-      int i = atoi(tok.substr(0, eq).c_str());
-      std::string v = tok.substr(eq + 1);
-      Spec sp;
-      if (v[0] == 'i') { sp.inline_ = true; sp.chan = v[2]; sp.val = v.size() > 3 ? atoi(v.c_str() + 3) : 0; }
-      else { sp.inline_ = false; sp.completeOnStop = (v.substr(2) == "done"); }
-      w.specs[i] = sp;
-    }
-  }
+  parse_specs(w, parts[2]);
   Parser ps(parts[1]);
   Node root = ps.parse();
   inplace_stop_source src;
@@ -409,48 +137,7 @@ static std::string run_case(const std::string& line) {
   {
     Any s = build(&w, root);
     auto op = connect(std::move(s), RootReceiver{&w, &src, &rootSched});
-    std::stringstream es(parts[3]); std::string ev;
-    auto one = [&](const std::string& evs) {
-      auto at = evs.find('@');
-      std::string e = evs.substr(0, at);
-      g_ctx = atoi(evs.c_str() + at + 1);
-      if (e == "s") { if (!w.started) { w.started = true; unifex::start(op); } else w.emit_raw("!!bad-op"); }
-      else if (e == "x") { w.stopped = true; src.request_stop(); }
-      else if (e == "r" || e == "R") {
-        auto& q = w.queues[g_ctx];
-        if (q.empty()) w.emit_raw("!!bad-op");
-        else {
-          size_t best = 0;
-          for (size_t i = 1; i < q.size(); ++i)
-            if (e == "r" ? q[i].first < q[best].first : q[i].first > q[best].first) best = i;
-          QItem* it = q[best].second;
-          q.erase(q.begin() + best);
-          it->run();
-        }
-      }
-      else if (e[0] == 'c') {
-        auto col = e.find(':');
-        int i = atoi(e.substr(1, col - 1).c_str());
-        char ch = e[col + 1];
-        int v = e.size() > col + 2 ? atoi(e.c_str() + col + 2) : 0;
-        auto it = w.running.find(i);
-        if (it == w.running.end()) w.emit_raw("!!bad-op");
-        else it->second->complete(ch, v);
-      }
-      g_ctx = -1;
-      res += " | " + flush(w);
-    };
-    while (es >> ev) one(ev);
-    // drain
-    for (int guard = 0; guard < 400; ++guard) {
-      int k = -1;
-      for (auto& kv : w.queues) if (!kv.second.empty()) { k = kv.first; break; }
-      if (k >= 0) { one("r@" + std::to_string(k)); continue; }
-      if (!w.running.empty()) { one("c" + std::to_string(w.running.begin()->first) + ":d@9"); continue; }
-      if (w.started && w.rootCompletions == 0 && !w.stopped) { one("x@0"); continue; }
-      break;
-    }
-    if (w.started && w.rootCompletions != 1) res += " | !!root-completions=" + std::to_string(w.rootCompletions);
+    res += run_events(w, src, op, parts[3]);
   }
   return res;
 }
